@@ -1,4 +1,62 @@
-From Coq Require Import List ZArith NArith.
-From QV Require Import Cell.Spec Feb.Model.
-Theorem placeholder_C01 : True. Proof. exact I. Qed.
-Print Assumptions placeholder_C01.
+(* C01: FEB words behave as atomic full/empty cells.  Statements only; proofs in Feb/Proofs.v, Feb/ProxyProofs.v, Cell/Proofs.v *)
+From Coq Require Import List ZArith NArith Bool Permutation.
+Import ListNotations.
+From QV Require Import Cell.Spec Cell.Proofs Feb.Model Feb.Proofs Feb.GenProxy Feb.ProxyProofs.
+
+(* every reachable state (any list of (task, call) steps on any words, spawns included) keeps the queue discipline:
+   full -> FEQ = FFQ = FFWQ = [], not full -> EFQ = [] *)
+Theorem feb_inv : forall (l : list (N * gop)) (a : N) (r : rec),
+  lookup a (st_febs (exec l)) = Some r ->
+  (r_full r = true -> r_FEQ r = [] /\ r_FFQ r = [] /\ r_FFWQ r = []) /\ (r_full r = false -> r_EFQ r = []).
+Proof. intros l a r H. pose proof (feb_inv_reachable l a r H) as I. split; apply I. Qed.
+Print Assumptions feb_inv.
+
+(* one call = one atomic step of the abstract cell, then the released waiters' operations, each enabled where it
+   stands, with the specification's values; a call that has to wait changes nothing and only enqueues the caller *)
+Theorem feb_refines_cell : forall (l : list (N * gop)) (t a : N) (o : op),
+  let s := exec l in
+  is_blocked s t = false ->
+  exists wr launched,
+    word_step (lookup a (st_febs s)) (memget a s) t o = Some wr /\
+    refines_cell (lookup a (st_febs s)) (memget a s) t o wr /\
+    snd (step s t (GWord a o)) = caller_event t wr ++ rel_events (wr_rel wr) ++ launched /\
+    (forall e, In e launched -> exists k, e = Enq k).
+Proof. exact feb_refines_cell_reachable. Qed.
+Print Assumptions feb_refines_cell.
+
+(* the same for any record satisfying the invariant (not only reachable ones), with preservation of the invariant *)
+Theorem feb_word_refines : forall (ro : option rec) (v : Z) (t : N) (o : op),
+  winv_opt ro -> exists wr, word_step ro v t o = Some wr /\ winv_opt (wr_rec wr) /\ refines_cell ro v t o wr.
+Proof. exact word_refines. Qed.
+Print Assumptions feb_word_refines.
+
+(* a non-blocking variant fails exactly when its blocking twin enqueues the caller; it never blocks, never enqueues *)
+Theorem nb_twin : forall (ro : option rec) (v : Z) (t : N) (o : op),
+  winv_opt ro -> is_nb o = true ->
+  exists wr wr', word_step ro v t o = Some wr /\ word_step ro v t (twin o) = Some wr' /\
+    (wr_code wr = Some OPFAIL <-> wr_code wr' = None) /\
+    wr_code wr <> None /\
+    (wr_code wr = Some OPFAIL -> pool_opt (wr_rec wr) = pool_opt ro /\ wr_rel wr = []).
+Proof. exact nb_twin_word. Qed.
+Print Assumptions nb_twin.
+
+(* calls from a non-qthread pthread: the blocker table of the source maps every API function to itself *)
+Theorem proxy_table_faithful : forall f : apiname, runs_as gen_passes gen_runs f = Some f.
+Proof. exact ProxyProofs.proxy_table_faithful. Qed.
+Print Assumptions proxy_table_faithful.
+
+Theorem ext_step_faithful : forall (s : state) (t a : N) (o : op),
+  step_ext (runs_as gen_passes gen_runs) s t a o = step s t (GWord a o).
+Proof. exact ProxyProofs.ext_step_faithful. Qed.
+Print Assumptions ext_step_faithful.
+
+(* consequences on histories of the abstract cell *)
+Theorem lock_mutex : forall (c : cell) (t1 t2 : N) (l : list (N * cop)) rs c',
+  lin c ((t1, CLock) :: l ++ [(t2, CLock)]) rs c' -> ~ Forall (fun x => sets_full (snd x) = false) l.
+Proof. intros c t1 t2 l rs c'. exact (Cell.Proofs.lock_mutex c t1 t2 l rs c'). Qed.
+Print Assumptions lock_mutex.
+
+Theorem ef_fe_once : forall (c : cell) (l : list (N * cop)) rs c',
+  ef_fe_only l -> lin c l rs c' -> handover (c_full c) (c_val c) l rs.
+Proof. intros c l rs c'. exact (Cell.Proofs.ef_fe_once c l rs c'). Qed.
+Print Assumptions ef_fe_once.
